@@ -45,8 +45,8 @@ def r09_1(ctx: Ctx):
         selfv = var(fn.param_names[0])
         x = var(fn.param_names[1])
         heap = {(key_of(selfv), 'numberOfFloatVariables'): RF.const(1)}
-        U = sub(attr(selfv, 'upperBoundOfFloatVariables'), zero)
-        L = sub(attr(selfv, 'lowerBoundOfFloatVariables'), zero)
+        U = sub(attr(selfv, e.backing_field('upperBoundOfFloatVariables')), zero)
+        L = sub(attr(selfv, e.backing_field('lowerBoundOfFloatVariables')), zero)
         n = 0
         for p in C.normal_paths(ex.explore(fn, heap=heap)):
             n += 1
@@ -68,8 +68,8 @@ def r09_1(ctx: Ctx):
         selfv = var(fn.param_names[0])
         y = var(fn.param_names[1])
         heap = {(key_of(selfv), 'numberOfFloatVariables'): RF.const(1)}
-        U = sub(attr(selfv, 'upperBoundOfFloatVariables'), zero)
-        L = sub(attr(selfv, 'lowerBoundOfFloatVariables'), zero)
+        U = sub(attr(selfv, e.backing_field('upperBoundOfFloatVariables')), zero)
+        L = sub(attr(selfv, e.backing_field('lowerBoundOfFloatVariables')), zero)
         n = 0
         for p in C.normal_paths(ex.explore(fn, heap=heap)):
             n += 1
@@ -123,6 +123,8 @@ def r09_3(ctx: Ctx):
     try:
         dens = e.density_field()
     except AnalysisError as err:
+        if getattr(err, 'undecided', False):
+            raise
         lp0 = e.level_loop(e.forward)
         ctx.fail(rid, e.forward.short, e.forward.loc(lp0),
                  f'the level loop of the forward descent iterates {ast.unparse(lp0.iter)}, which is not an attribute '
